@@ -180,7 +180,7 @@ PROPS = {
             "the reference is written from the published construction with crypto/sha3 from the Go standard library",
             "Stat errors are not injected: buf probes for doc files with Stat and, by API design, cannot tell a failed Stat from an absent file",
             "Digest() is not called from concurrent tasks: it is a sync.OnceValues and parking inside it would block the others non-durably",
-            "only b5 has a reference; input-universal clauses are sampled as workload, the deciding dimensions are backend, enumeration order, read faults and stored corruption",
+            "b5 and the legacy b4 digest both have an independent reference; input-universal clauses are sampled as workload, the deciding dimensions are backend, enumeration order, read faults and stored corruption",
         ],
         "probes_expected": {"quick": ["walk-permuted-nontrivially", "digest-failed-under-fault", "mutation-changed-digest", "mutation-left-digest", "cache-backend-verified", "dependency-change-propagated"],
                             "thorough": ["walk-permuted-nontrivially", "digest-failed-under-fault", "mutation-changed-digest", "mutation-left-digest", "cache-backend-verified", "dependency-change-propagated"]},
